@@ -974,7 +974,27 @@ class C11(PropertyCheck):
                 # ------------------------------------------------ operations
                 elif name == "normalize":
                     cc_ = int(arg)
-                    if neg or not cur or (cc_ == 2 and not sym):
+                    if neg or not cur:
+                        continue
+                    if cc_ == 2 and not sym:
+                        # what 'symmetric' normalisation means on a directed graph is not specified; what is:
+                        # "when the sum is 0, nothing is performed" - every weight is divided by positive numbers
+                        # (or left alone), so no entry of the adjacency matrix appears, vanishes or changes sign,
+                        # and the two scalings handed back are positive
+                        A = dense(V, cur)
+                        ret = g.normalize(2)
+                        B = dense(V, gedges(g))
+                        if not consistent(g) or not np.array_equal(np.sign(B), np.sign(A)):
+                            fail("normalize(2) on a directed graph changed the zero / sign pattern of the adjacency "
+                                 f"matrix: {A.tolist()} -> {B.tolist()}")
+                        else:
+                            try:
+                                diags = [np.asarray(m.diagonal(), float) for m in ret]
+                                if any((d_ <= 0).any() or not np.all(np.isfinite(d_)) for d_ in diags):
+                                    fail(f"normalize(2) handed back a scaling that is not positive: "
+                                         f"{[d_.tolist() for d_ in diags]}")
+                            except Exception:      # noqa: BLE001
+                                pass
                         continue
                     A = dense(V, cur)
                     ret = g.normalize(cc_)
